@@ -39,6 +39,17 @@ const COMMON_ASSUMPTIONS: &[&str] = &[
 pub fn all() -> Vec<Prop> {
     vec![
         Prop {
+            id: "C01",
+            run: props::quant::run_c01,
+            replayers: props::quant::replayers,
+            rule: "Random: proptest cases = element type (i8..u64, usize, N64; N32 in thorough) x 1..4-D shape x axis x layout (C/F/permuted/stepped/reversed/padded view into a sentinel parent) x values (tiny alphabet, small, full width, type extremes; floats incl. signed zeros, subnormals, infinities, huge) x q recipes resolved against the lane length (0, 1, k/(N-1) and (k+1/2)/(N-1) each nudged by -2..2 ulp, 2^-1074, 1-2^-53, uniform) x 5 strategies x API (quantile_axis_mut, quantiles_axis_mut with 0..32 q, quantile_mut, quantiles_mut) x static/dynamic dimension x 1-2 pivot scripts (outputs must agree); distinct by hash of the whole case. Enumeration: all weak-order patterns of length <= 4 (quick) / 5 (thorough) x {i8,u16,N64} x 5 strategies x the boundary q set x ALL pivot sequences. Oracle: full sort of each lane, index = f64 product q*(N-1) (the exact-rational reading is also accepted when it differs), per-strategy acceptance in exact integer / dyadic arithmetic. Non-trivial: lane length >= 3, some lane not constant, and (lower index != higher index or q boundary-constructed). Cases matching the signature of the open known finding (Midpoint/Linear with a neighbour difference not representable in the element type) are counted as excluded, not judged.",
+            assumptions: COMMON_ASSUMPTIONS,
+            profiles_quick: BOTH,
+            profiles_thorough: BOTH,
+            shards_quick: 8,
+            shards_thorough: 16,
+        },
+        Prop {
             id: "C02",
             run: props::sel::run_c02,
             replayers: props::sel::replayers,
